@@ -315,9 +315,12 @@ class Check:
         EVID.mkdir(exist_ok=True)
         (EVID / "replay").mkdir(exist_ok=True)
         lines = []
-        for fid, hit in sorted(self.known_hits.items()):
-            f = hit["finding"]
-            lines.append(f"KNOWN-FINDING: property={self.pid} {fid} {f.get('what', '')} (met {hit['count']}x this run)")
+        for f in self.findings:
+            if f.get("status") != "finding":
+                continue
+            hit = self.known_hits.get(f["id"])
+            met = f"met {hit['count']}x this run" if hit else "listed; not met by the cases sampled in this run"
+            lines.append(f"KNOWN-FINDING: property={self.pid} {f['id']} {f.get('what', '')} ({met})")
         # group violations by (clause, features) so that the output stays readable
         groups: dict = {}
         for v in self.violations:
